@@ -79,11 +79,10 @@ def _intlike(t):
 
 def analyse(cfg, body, policy=None, args=(), eng=None):
     eng = eng or cfg.eng
-    N = nf.Norm()
     an = terms.Analysis(eng, policy or SeqPolicy())
     raw = an.run(body, list(args))
-    out = [NPath(p, N) for p in raw]
-    return [p for p in out if p.feasible], N
+    out = [NPath(p, nf.Norm(env=getattr(p, "env", None))) for p in raw]
+    return [p for p in out if p.feasible], nf.Norm()
 
 
 def strip_assert_guards(paths):
@@ -215,3 +214,59 @@ def one(chk, rule, crate, what, **kw):
                                "is missing or duplicated" % len(bs))
         return None
     return bs[0]
+
+
+def peel_posts(t):
+    """post#k(...post#j(base)) -> (base, [j..k])"""
+    ids = []
+    while isinstance(t, tuple) and t[0] == "post":
+        ids.append(t[1])
+        t = t[2]
+    return t, list(reversed(ids))
+
+
+def calls_on(npath, obj):
+    """calls (key, args, result, ev) whose first argument denotes the object obj, in order"""
+    return [x for x in npath.calls if x[1] and x[1][0] == obj]
+
+
+def short(key):
+    """last path segment of a callee key without generic arguments"""
+    k = key
+    while k.endswith(">"):
+        depth = 0
+        i = len(k) - 1
+        while i >= 0:
+            if k[i] == ">":
+                depth += 1
+            elif k[i] == "<":
+                depth -= 1
+                if depth == 0:
+                    break
+            i -= 1
+        if i >= 2 and k[i - 2:i] == "::":
+            k = k[:i - 2]
+        else:
+            break
+    # last segment outside any angle bracket
+    depth = 0
+    for j in range(len(k) - 1, 0, -1):
+        if k[j] == ">":
+            depth += 1
+        elif k[j] == "<":
+            depth -= 1
+        elif depth == 0 and k[j - 1:j + 1] == "::":
+            return k[j + 1:]
+    return k
+
+
+def is_call(t, key, args=None):
+    """t is a call term to `key` (exact string or compiled regex) with the given normalised args"""
+    if not (isinstance(t, tuple) and t and t[0] == "call"):
+        return False
+    if hasattr(key, "search"):
+        if not key.search(t[1]):
+            return False
+    elif t[1] != key:
+        return False
+    return args is None or tuple(t[2]) == tuple(args)
